@@ -7,7 +7,7 @@
        hypothesis of C02_debit_exact / C05_new_one_debit_issued can be discharged there). *)
 From Coq Require Import List ZArith Bool Lia.
 From SVC Require Import Base.AMap Base.Res Base.Dec Model.Types Model.Pricing
-  Model.Handlers Model.EndBlock Model.Step Proofs.Inv Proofs.Lemmas Proofs.InvAll
+  Model.Handlers Model.EndBlock Model.Step Proofs.Inv Proofs.Lemmas Proofs.InvEscrow Proofs.InvAll
   Proofs.ReachRun Proofs.TraceLemmas Proofs.TraceSettle Proofs.TraceMoney.
 Import ListNotations.
 Open Scope Z_scope.
@@ -79,6 +79,24 @@ Proof.
     - exists []. cbn. split; [reflexivity|lia].
     - exists []. cbn. split; [reflexivity|lia]. }
   destruct Hd as (d & El & Hb). exists d. split; [exact El|]. unfold oblig. split; lia.
+Qed.
+
+(* history level: the escrow balance, and with it the recorded obligations, is the sum of the
+   escrow effects of all ledger events of the history: debits in, taxes / refunds /
+   withdrawals out *)
+Theorem escrow_ledger cfg s : wf_cfg cfg -> Reach cfg s ->
+  bal s Escrow = evs_delta (log s) Escrow /\ oblig s = evs_delta (log s) Escrow.
+Proof.
+  intros Hcfg HR.
+  assert (H : bal s Escrow = evs_delta (log s) Escrow).
+  { induction HR as [h0 t0 f H1 H2 H3|s o HR IH Ho].
+    - pose proof (I_escrow_init h0 t0 f) as E. unfold I_escrow in E. rewrite E. reflexivity.
+    - pose proof (Reach_Inv cfg s Hcfg HR) as HI.
+      unfold step. destruct (handle cfg s o) as [s'| |] eqn:E; cbn [fst]; try exact IH.
+      destruct (MV_any cfg s o s' (inv_wd _ _ HI) E) as (d & El & Hb).
+      rewrite Hb, El, evs_delta_app, IH. lia. }
+  split; [exact H|]. pose proof (inv_escrow _ _ (Reach_Inv cfg s Hcfg HR)) as E.
+  unfold I_escrow in E. unfold oblig. lia.
 Qed.
 
 (* ------------------------------------------------------------------ *)
